@@ -70,11 +70,76 @@ def run(chk) -> None:
     chk.rule("R28g", "the human tree output shows each node's type and each token's text in full: the functions that format a line (_preface, _suffix, stringify) apply no precision to a text field, no slice and no shortening helper to the type or the raw text")
     _r28g(chk, repo)
     _r28c(chk, repo)
+    chk.rule("R28h", "the machine-readable parse output keeps the key order of the records (children with distinct types are one mapping whose order IS the file order): in the parse command json.dumps is called without sort_keys (or with the constant False) and yaml.dump with the constant sort_keys=False")
+    _r28h(chk, repo)
+    chk.rule("R28i", "structural_simplify turns only an empty child TUPLE into null: the store of None under `not value` is reached only where value is known not to be a str (the leaf return for strings dominates it), so a zero-width token keeps its (empty) text")
+    _r28i(chk, repo)
     chk.note("Claimed at the weakest level: these are wiring facts of the serialiser, not a proof that the listed texts concatenate to the rendered SQL.")
 
 
 # ---------------------------------------------------------------------------
 R28E_SCOPE = ("src/sqlfluff/cli/commands.py", "src/sqlfluff/api/simple.py", "src/sqlfluff/core/linter/linted_dir.py", "src/sqlfluff/core/linter/linting_result.py")
+
+
+def _r28h(chk, repo) -> None:
+    f = repo.fn(CMDS, "parse")
+    n = 0
+    for c in calls_in(f):
+        cn = call_name(c) or ""
+        if cn.endswith("json.dumps") or cn == "dumps":
+            n += 1
+            k = kwarg(c, "sort_keys")
+            chk.require(
+                k is None or (isinstance(k, ast.Constant) and k.value is False), "R28h", c,
+                f"the parse command serialises its records with json.dumps(sort_keys={short(k, 40) if k is not None else ''}): a node whose children have distinct types is one JSON object whose key "
+                "order is the file order; sorted, the tokens come out of order and their texts no longer concatenate to the SQL",
+                detail="parse: json.dumps keeps the key order",
+            )
+        elif cn.endswith("yaml.dump") or cn.endswith("yaml.safe_dump"):
+            n += 1
+            k = kwarg(c, "sort_keys")
+            chk.require(
+                isinstance(k, ast.Constant) and k.value is False, "R28h", c,
+                "the parse command serialises its records with yaml.dump without the constant sort_keys=False (PyYAML sorts mapping keys by default): children of a node come out in alphabetical, "
+                "not file, order",
+                detail="parse: yaml.dump keeps the key order",
+            )
+    chk.count("R28h.dump_calls", n)
+    chk.floor("R28h.dump_calls", 2)
+
+
+def _r28i(chk, repo) -> None:
+    f = repo.fn(SEGBASE, "BaseSegment.structural_simplify")
+    cfg = cfg_of(f)
+    params = [a.arg for a in f.args.args]
+    n = 0
+    for st in walk_local(f):
+        if not (isinstance(st, ast.Assign) and len(st.targets) == 1 and isinstance(st.targets[0], ast.Subscript) and isinstance(st.value, ast.Constant) and st.value.value is None):
+            continue
+        n += 1
+        conds = conditions_at(cfg, st)
+        # the value whose emptiness decides
+        empt = [e.operand for e, pol in conds if pol and isinstance(e, ast.UnaryOp) and isinstance(e.op, ast.Not)] + [e for e, pol in conds if not pol and isinstance(e, (ast.Name, ast.Attribute))]
+        not_str = False
+        for e, pol in conds:
+            if isinstance(e, ast.Call) and call_name(e) == "isinstance" and len(e.args) == 2:
+                ty = norm(e.args[1])
+                if not pol and "str" in ty and any(norm(e.args[0]) == norm(v) for v in empt):
+                    not_str = True
+                if pol and "tuple" in ty and "str" not in ty and any(norm(e.args[0]) == norm(v) for v in empt):
+                    not_str = True
+        for a in walk_local(f):
+            if isinstance(a, ast.Assert) and cfg.dominates(a, st) and isinstance(a.test, ast.Call) and call_name(a.test) == "isinstance" and len(a.test.args) == 2 \
+                    and "tuple" in norm(a.test.args[1]) and "str" not in norm(a.test.args[1]) and any(norm(a.test.args[0]) == norm(v) for v in empt):
+                not_str = True
+        chk.require(
+            bool(empt) and not_str, "R28i", st,
+            "structural_simplify writes null for an empty value before it has established that the value is not a string: a zero-width token (indent, dedent, end of file, an empty placeholder) "
+            "is serialised as `type: null` -- the representation of a node without children -- and its text is lost",
+            detail="structural_simplify: null only for an empty tuple",
+        )
+    chk.count("R28i.null_stores", n)
+    chk.floor("R28i.null_stores", 1)
 
 
 def _r28g(chk, repo) -> None:
@@ -860,6 +925,18 @@ def _r28c(chk, repo) -> None:
 from ..selftest import Variant  # noqa: E402
 
 VARIANTS = [
+    Variant(
+        "parse-json-written-with-sorted-keys", CMDS,
+        "            file_output = json.dumps(parsed_strings_dict)\n",
+        "            file_output = json.dumps(parsed_strings_dict, sort_keys=write_output is not None)\n",
+        "R28h", "parse", "seeded C28-9",
+    ),
+    Variant(
+        "empty-leaf-text-serialised-as-null", SEGBASE,
+        "        if isinstance(value, str):\n            result[key] = value\n            return result\n        assert isinstance(value, tuple)\n        # If it's an empty tuple return a dict with None.\n        if not value:\n            result[key] = None\n            return result\n",
+        "        if not value:\n            result[key] = None\n            return result\n        if isinstance(value, str):\n            result[key] = value\n            return result\n        assert isinstance(value, tuple)\n",
+        "R28i", "BaseSegment.structural_simplify", "seeded C28-10",
+    ),
     Variant(
         "type-column-clipped-at-its-width", "src/sqlfluff/core/parser/segments/base.py",
         "{padded_type:60}",
